@@ -286,10 +286,18 @@ def known_match(known, failure):
         if m.get("kind") == "printed-signature-contains" and failure.get("kind") == m.get("failure_kind") \
                 and m["text"] in failure.get("printed", "").split(" = ")[0]:
             return f
-        if m.get("kind") == "printed-signature-matches" and failure.get("kind") == m.get("failure_kind") \
-                and re.search(m["regex"], failure.get("printed", "") if m.get("scope") == "whole"
-                              else failure.get("printed", "").split(" = ")[0]):
-            return f
+        if m.get("kind") == "printed-signature-matches" and failure.get("kind") == m.get("failure_kind"):
+            printed = failure.get("printed", "")
+            if m.get("scope") == "whole":
+                text = printed
+            elif m.get("scope") == "annotations":
+                # every place where the echo prints a type: the signature and the annotation of each where-local
+                text = "\n".join([printed.split(" = ")[0]] +
+                                 re.findall(r"\n\s*(?:where|and) \w+: ([^=\n]*) =", printed))
+            else:
+                text = printed.split(" = ")[0]
+            if re.search(m["regex"], text):
+                return f
     return None
 
 
